@@ -727,7 +727,15 @@ class BlobStorageMixin:
                   transaction):
         """Stores data that has a BLOB attached."""
         assert not version, "Versions aren't supported."
-        self.store(oid, oldserial, data, '', transaction)
+        try:
+            self.store(oid, oldserial, data, '', transaction)
+        except:  # noqa: E722 do not use bare 'except'
+            # The file was handed over to us and nobody else keeps track
+            # of it: it must not stay behind if the store is refused
+            # (e.g. with a ConflictError).
+            if os.path.exists(blobfilename):
+                os.remove(blobfilename)
+            raise
         self._blob_storeblob(oid, self._tid, blobfilename)
 
     def temporaryDirectory(self):
